@@ -130,6 +130,31 @@ def search(ctx):
                     break
             else: continue
             break
+    # paths whose segments SHARE Point objects in other patterns than neighbour-to-neighbour (retracted handles written CubicBezier(a, a, b, b), a control
+    # point object reused by two segments), moved in place: translating / scaling / rotating the path must commute with evaluation
+    from beziers.path import BezierPath as _BP
+    from beziers.cubicbezier import CubicBezier as _CB
+    from beziers.line import Line as _LN
+    for _ in range(ctx.n(40, 600)):
+        a, b, c, d = [P(rng.uniform(-200, 200), rng.uniform(-200, 200)) for _ in range(4)]
+        pat = rng.choice(['retracted', 'reused-control', 'same-object-twice'])
+        if pat == 'retracted': segs = [_CB(a, a, b, b), _LN(b, c), _CB(c, d, d, a)]
+        elif pat == 'reused-control': segs = [_CB(a, d, d, b), _CB(b, d, c, c), _LN(c, a)]
+        else: segs = [_LN(a, b), _CB(b, c, d, a), _LN(a, b)]
+        path = _BP.fromSegments(segs)
+        ts = [0.0, 0.3, 0.5, 0.8, 1.0]
+        before = [[(s_.pointAtTime(t).x, s_.pointAtTime(t).y) for t in ts] for s_ in path.asSegments()]
+        op = rng.choice(['translate', 'scale', 'rotate'])
+        v = P(rng.uniform(-50, 50), rng.uniform(-50, 50)); kk = rng.choice([2.0, -0.5, 1.5]); ang = rng.uniform(-3, 3)
+        if op == 'translate': path.translate(v); f_ = lambda x, y: (x + v.x, y + v.y)
+        elif op == 'scale': path.scale(kk); f_ = lambda x, y: (x * kk, y * kk)
+        else: path.rotate(v, ang); f_ = lambda x, y: (v.x + (x - v.x) * math.cos(ang) - (y - v.y) * math.sin(ang), v.y + (x - v.x) * math.sin(ang) + (y - v.y) * math.cos(ang))
+        after = [[(s_.pointAtTime(t).x, s_.pointAtTime(t).y) for t in ts] for s_ in path.asSegments()]
+        bad = [(b0, a0) for bs, as_ in zip(before, after) for b0, a0 in zip(bs, as_) if abs(f_(*b0)[0] - a0[0]) > 1e-7 * 500 or abs(f_(*b0)[1] - a0[1]) > 1e-7 * 500]
+        dist['shared-points/' + pat] = dist.get('shared-points/' + pat, 0) + 1
+        if bad or len(after) != len(before):
+            fails.append({'class': 'C09-identity', 'what': f'path.{op} on a path whose segments share Point objects ({pat}): a point of the curve moved from {bad[0][0] if bad else None} to {bad[0][1] if bad else None}, not to its image',
+                          'input': {'shared_points': pat, 'op': op}, 'observed': bad[:2], 'expected': 'every point of the path is mapped to its image'})
     # invertible maps with a tiny determinant (uniform and non-uniform small scalings): the inverse must still undo them
     for _ in range(ctx.n(40, 600)):
         sx = 10 ** rng.uniform(-7, -2); sy = rng.choice([sx, 10 ** rng.uniform(-7, -2)])
@@ -151,8 +176,8 @@ def search(ctx):
 
 def replay(ctx, payload):
     i = payload['input']
-    if 'shape' in i:
-        return {'fails': True, 'observed': 'shape transform replay: rerun the search with the same seed'}
+    if 'shape' in i or 'shared_points' in i:
+        return {'fails': True, 'observed': 'shape / shared-points transform replay: rerun the search with the same seed'}
     if 'invert_calls' in i:
         m = build([tuple(c) for c in i['invert_calls']]); mi = AffineTransformation([list(r) for r in m.matrix]); mi.invert()
         p = P(*i['point']); q = p.transformed(m).transformed(mi)
